@@ -26,38 +26,8 @@ func isHigh(c byte) bool      { return c >= 128 }
 func isE(c byte) bool         { return c == 'e' || c == 'E' }
 func isIdStart(c byte) bool   { return isAlpha(c) || c == '_' || isHigh(c) }
 func isIdCont(c byte) bool    { return isIdStart(c) || isDigit(c) || c == '$' }
-func mTagStart(c byte) bool   { return isAlpha(c) || c == '_' }
-func mTagCont(c byte) bool    { return mTagStart(c) || isDigit(c) }
 func lTagStart(c byte) bool   { return isAlpha(c) || c == '_' || isHigh(c) }
 func lTagCont(c byte) bool    { return lTagStart(c) || isDigit(c) }
-
-// mBody: returns number of bytes consumed after the opening quote.
-func mBody(q byte, t []byte) int {
-	pb := false
-	i := 0
-	for i < len(t) {
-		c := t[i]
-		if c == q {
-			if i+1 >= len(t) {
-				return i + 1
-			}
-			if t[i+1] == q {
-				i += 2
-				pb = false
-				continue
-			}
-			if pb {
-				i++
-				pb = false
-				continue
-			}
-			return i + 1
-		}
-		pb = c == '\\'
-		i++
-	}
-	return len(t)
-}
 
 func lBody(q byte, t []byte) int {
 	i := 0
@@ -143,7 +113,7 @@ func mSegs(s []byte) []seg {
 		switch {
 		case c == '$':
 			if !isIdentByte(prev) {
-				if n := dollarTok(mTagStart, mTagCont, t); n >= 0 {
+				if n := dollarTok(lTagStart, lTagCont, t); n >= 0 {
 					out = append(out, seg{'s', s[i : i+n]})
 					i += n
 					continue
@@ -152,15 +122,26 @@ func mSegs(s []byte) []seg {
 			out = append(out, seg{'r', s[i : i+1]})
 			i++
 		case isE(c) && len(t) > 0 && t[0] == '\'' && !isIdentByte(prev):
-			n := 2 + mBody('\'', t[1:])
+			n := 2 + lEBody(t[1:])
 			out = append(out, seg{'s', s[i : i+n]})
 			i += n
+		case c == '-' && len(t) > 0 && t[0] == '-':
+			n := 0
+			for i+n < len(s) && s[i+n] != '\n' {
+				n++
+			}
+			out = append(out, seg{'l', s[i : i+n]})
+			i += n
+		case c == '/' && len(t) > 0 && t[0] == '*':
+			n := 2 + lBlock(t[1:])
+			out = append(out, seg{'b', s[i : i+n]})
+			i += n
 		case c == '\'':
-			n := 1 + mBody('\'', t)
+			n := 1 + lBody('\'', t)
 			out = append(out, seg{'s', s[i : i+n]})
 			i += n
 		case c == '"':
-			n := 1 + mBody('"', t)
+			n := 1 + lBody('"', t)
 			out = append(out, seg{'i', s[i : i+n]})
 			i += n
 		default:
@@ -318,16 +299,11 @@ func segsStr(l []seg) string {
 
 // ---- K classes (codes as in the Lean model)
 const (
-	kPlainBs          = 1
-	kIdentBs          = 2
-	kEBs              = 3
-	kQuoteInLine      = 4
-	kQuoteInBlock     = 5
 	kDollarInIdent    = 6
 	kEInIdent         = 7
 	kDollarAfterDigit = 8
-	kDollarTagHigh    = 9
 	kEAfterDigit      = 10
+	kCrEndsLineM      = 11
 	kLiteralLeft      = 20
 	kCrEndsLine       = 21
 	kNested           = 22
@@ -336,10 +312,9 @@ const (
 )
 
 var className = map[int]string{
-	0: "inside-K", kPlainBs: "plain-backslash-quote", kIdentBs: "ident-backslash-quote", kEBs: "estring-backslash-quote",
-	kQuoteInLine: "quote-in-line-comment", kQuoteInBlock: "quote-in-block-comment", kDollarInIdent: "dollar-in-identifier",
-	kEInIdent: "e-in-nonascii-identifier", kDollarAfterDigit: "dollar-after-digit", kDollarTagHigh: "dollar-tag-nonascii",
-	kEAfterDigit: "estring-after-digit", kLiteralLeft: "literal-left", kCrEndsLine: "cr-ends-line-comment",
+	0: "inside-K", kDollarInIdent: "dollar-in-identifier",
+	kEInIdent: "e-in-nonascii-identifier", kDollarAfterDigit: "dollar-after-digit",
+	kEAfterDigit: "estring-after-digit", kCrEndsLineM: "cr-ends-line-comment", kLiteralLeft: "literal-left", kCrEndsLine: "cr-ends-line-comment",
 	kNested: "nested-block-comment", kByteAfterBlock: "byte-after-block-comment", kLookalike: "placeholder-lookalike",
 }
 
@@ -351,7 +326,6 @@ func hasPair(a, b byte, o []byte) bool {
 	}
 	return false
 }
-func commentClean(o []byte) bool { return !bytes.ContainsAny(o, "'\"$") }
 
 func kClassM(s []byte) int {
 	inId := false
@@ -364,7 +338,7 @@ func kClassM(s []byte) int {
 		}
 		t := s[i+1:]
 		k, n, id := lTok(inId, s, i)
-		tok := s[i : i+n]
+		rest := s[i+n:]
 		code := 0
 		switch {
 		case inId && isIdCont(c):
@@ -377,39 +351,18 @@ func kClassM(s []byte) int {
 					code = kEInIdent
 				}
 			}
-		case c == '\'':
-			if hasPair('\\', '\'', tok[1:]) {
-				code = kPlainBs
-			}
-		case c == '"':
-			if hasPair('\\', '"', tok[1:]) {
-				code = kIdentBs
-			}
+		case c == '\'' || c == '"':
 		case isE(c) && len(t) > 0 && t[0] == '\'':
 			if isIdentByte(prev) {
 				code = kEAfterDigit
-			} else if hasPair('\\', '\'', tok[2:]) {
-				code = kEBs
 			}
 		case c == '$':
-			if tn, ok := tagScan(lTagStart, lTagCont, t); ok {
-				if isIdentByte(prev) {
-					code = kDollarAfterDigit
-				} else {
-					for _, b := range t[:tn] {
-						if isHigh(b) {
-							code = kDollarTagHigh
-						}
-					}
-				}
+			if _, ok := tagScan(lTagStart, lTagCont, t); ok && isIdentByte(prev) {
+				code = kDollarAfterDigit
 			}
 		case k == 'l':
-			if !commentClean(tok) {
-				code = kQuoteInLine
-			}
-		case k == 'b':
-			if !commentClean(tok[2:]) {
-				code = kQuoteInBlock
+			if len(rest) > 0 && rest[0] == '\r' {
+				code = kCrEndsLineM
 			}
 		}
 		if code != 0 {
@@ -449,8 +402,24 @@ func kClassS(s []byte) int {
 	return 0
 }
 
+func runClean(run []byte) bool {
+	return !bytes.Contains(run, []byte("STR_")) && !bytes.Contains(run, []byte("IDENT_"))
+}
+
+// kClassP: a placeholder look-alike fragment in the text between masked tokens (raw bytes + comments).
 func kClassP(s []byte) int {
-	if bytes.Contains(s, []byte("STR_")) || bytes.Contains(s, []byte("IDENT_")) {
+	var cur []byte
+	for _, x := range mSegs(s) {
+		if x.kind == 's' || x.kind == 'i' {
+			if !runClean(cur) {
+				return kLookalike
+			}
+			cur = cur[:0]
+		} else {
+			cur = append(cur, x.b...)
+		}
+	}
+	if !runClean(cur) {
 		return kLookalike
 	}
 	return 0
